@@ -351,6 +351,10 @@ def parse_rvalue(r):
         rest = r[k + 4:]
         kk = rest.rfind(' (')
         return ('cast', rest[kk + 2:-1], parse_operand(r[:k]), rest[:kk])
+    # function item reified to a function pointer:  path::f as fn(A) -> R (PointerCoercion(ReifyFnPointer(..), ..))
+    mf = re.fullmatch(r'(.+?) as ((?:unsafe )?(?:extern \S+ )?fn\(.*) \((PointerCoercion\(ReifyFnPointer.*\))\)', r)
+    if mf and not mf.group(1).startswith(('copy ', 'move ', 'const ')):
+        return ('use', ('fnitem', mf.group(1)))
     if r.startswith(('copy ', 'move ', 'const ', 'no_retag ')):
         return ('use', parse_operand(r))
     if r == '()':
